@@ -416,9 +416,18 @@ func lockRule(c *Ctx, ru *Rule, spec lockSpec) {
 	for _, g := range spec.Guarded {
 		guarded[g] = true
 		found := false
+		parts := strings.Split(g, ".")
 		for i := 0; st != nil && i < st.NumFields(); i++ {
-			if st.Field(i).Name() == g {
-				found = true
+			if st.Field(i).Name() == parts[0] {
+				if len(parts) == 1 {
+					found = true
+				} else if ist, ok := st.Field(i).Type().Underlying().(*types.Struct); ok {
+					for j := 0; j < ist.NumFields(); j++ {
+						if ist.Field(j).Name() == parts[1] {
+							found = true
+						}
+					}
+				}
 			}
 		}
 		if !found {
@@ -463,8 +472,11 @@ func lockRule(c *Ctx, ru *Rule, spec lockSpec) {
 					}
 				}
 			}
-			p, n := typeNameOf(cur)
-			thisClass = p + "." + n + "." + parts[len(parts)-1]
+			if p, n := typeNameOf(cur); n != "" {
+				thisClass = p + "." + n + "." + parts[len(parts)-1]
+			} else {
+				thisClass = strings.ReplaceAll(types.TypeString(cur, nil), Mod, "") + "." + parts[len(parts)-1]
+			}
 		}
 	}
 
@@ -505,6 +517,18 @@ func lockRule(c *Ctx, ru *Rule, spec lockSpec) {
 			if p == spec.Pkg && n == spec.Type && guarded[fld.Name()] {
 				accs = append(accs, guardedAccess{fn: f, in: in, base: base, field: fld.Name(), typ: n, write: isWriteAccess(fa)})
 				return
+			}
+			// field of an anonymous struct nested by value: "outer.inner"
+			if ofa, ok := base.(*ssa.FieldAddr); ok {
+				ofld, obase := fieldAddrOf(ofa)
+				if ofld != nil {
+					op, on := typeNameOf(obase.Type())
+					dotted := ofld.Name() + "." + fld.Name()
+					if op == spec.Pkg && on == spec.Type && guarded[dotted] {
+						accs = append(accs, guardedAccess{fn: f, in: in, base: obase, field: dotted, typ: on, write: isWriteAccess(fa)})
+						return
+					}
+				}
 			}
 			if p == spec.Pkg {
 				for _, of := range spec.Owned[n] {
